@@ -103,7 +103,7 @@ func closeScenario(p closeParams) func() {
 			w.FW.Restart(world.Addr(1)) // the server starts listening after the manager was created
 			mc.Quiesce()
 		}
-		if p.state == "backoff" {
+		if p.state == "backoff" || p.state == "healing" {
 			w.FW.Crash(world.Addr(1))
 			mc.Quiesce() // the receiver is now in its reconnect loop with a back-off timer armed
 		}
@@ -123,6 +123,13 @@ func closeScenario(p closeParams) func() {
 		}
 		for _, c := range inflight {
 			w.Start(c)
+		}
+		if p.state == "healing" {
+			// the node listens again and the back-off timers expire: receiver and sender re-create the stream
+			// and the request goes out - while Close strikes (the closers start now)
+			mc.Quiesce()
+			w.FW.Restart(world.Addr(1))
+			mc.FireTimers(nil)
 		}
 		if p.mixed {
 			mc.Quiesce() // both requests are with the server: the first handler waits for the gate, the second request behind it
@@ -297,6 +304,19 @@ func closeInstances(tier string) []Instance {
 			}
 		}
 	}
+	// the stream is being re-created (node back, timers just expired) when Close strikes
+	for _, kd := range kinds {
+		if kd.nsw {
+			continue
+		}
+		for _, buf := range []uint{0, 1} {
+			if buf == 1 && !thorough(tier) && kd.kind != "GRPCCall" {
+				continue
+			}
+			p := closeParams{kind: kd.kind, buf: buf, state: "healing", blocks: true, closers: 1, post: "GRPCCall"}
+			out = append(out, Instance{Name: p.name(), Bound: 2, Root: closeScenario(p)})
+		}
+	}
 	// two in-flight calls (one queued behind the other)
 	for _, a := range []string{"GRPCCall", "Unicast", "CorrectableStream"} {
 		for _, b := range []string{"GRPCCall", "QuorumCall", "Multicast"} {
@@ -330,7 +350,7 @@ func closeInstances(tier string) []Instance {
 
 func init() {
 	register(&Check{ID: "C12",
-		Rule:        "9 in-flight call variants with never-ending contexts (optionally two calls, both unanswered or the first one answered) x send buffer {0,1,2} x node state {connected, down at creation, crashed with the receiver in back-off, blocking dial timed out at creation and the server came up later} x handler {never answers, answers} x 1 or 2 concurrent Close calls as free-running threads placed by the explorer at every instant within the deviation bound (call queued, being written, awaiting replies), then a call of a rotating type issued after Close, then a further sequential Close; plus Close on a WithNoConnect manager; plus a configuration that adds a node to the pool created after Close or concurrently with it (nothing may survive); back-off timers are fired to a horizon before each oracle; oracle: no panic, every Close returns, every in-flight and post-Close call returns (with an error where the API has one), no client library goroutine is alive and every connection is closed at the end; an outcome is (instance, completion summary)",
+		Rule:        "9 in-flight call variants with never-ending contexts (optionally two calls, both unanswered or the first one answered) x send buffer {0,1,2} x node state {connected, down at creation, crashed with the receiver in back-off, crashed and healing (node back and timers just expired when Close strikes), blocking dial timed out at creation and the server came up later} x handler {never answers, answers} x 1 or 2 concurrent Close calls as free-running threads placed by the explorer at every instant within the deviation bound (call queued, being written, awaiting replies), then a call of a rotating type issued after Close, then a further sequential Close; plus Close on a WithNoConnect manager; plus a configuration that adds a node to the pool created after Close or concurrently with it (nothing may survive); back-off timers are fired to a horizon before each oracle; oracle: no panic, every Close returns, every in-flight and post-Close call returns (with an error where the API has one), no client library goroutine is alive and every connection is closed at the end; an outcome is (instance, completion summary)",
 		Gen:         closeInstances,
 		Assumptions: []string{"'within bounded time' is decided in its eventual untimed form: after firing the armed library timers 4 rounds", "server-side goroutines (handlers that block forever by construction) are not counted as manager residue"},
 	})
